@@ -153,7 +153,29 @@ Definition flip_bit (bs : bytes) (i : nat) : bytes :=
   end.
 
 Definition show_t (r : outcome bool) : string :=
-  match r with Panic => "PANIC" | _ => "OK:" +++ show_v r +++ ";" +++ is_ok r +++ ";" +++ is_ok r end.
+  match r with Panic => "PANIC" | _ => "OK:" +++ show_v r +++ ";" +++ is_ok r +++ ";" +++ is_ok r +++ ";" +++ show_v r end.
+
+(* a message RELATED to m (same table as the driver) *)
+Definition is_wsb (b : byte) : bool := let n := b2n b in ((9 <=? n)%N && (n <=? 13)%N) || (n =? 32)%N.
+Fixpoint lstrip (m : bytes) : bytes := match m with b :: r => if is_wsb b then lstrip r else m | [] => [] end.
+Definition up_b (b : byte) : byte := let n := b2n b in if (97 <=? n)%N && (n <=? 122)%N then n2b (n - 32) else b.
+Definition lo_b (b : byte) : byte := let n := b2n b in if (65 <=? n)%N && (n <=? 90)%N then n2b (n + 32) else b.
+Fixpoint dbl_space (m : bytes) : option bytes :=
+  match m with
+  | [] => None
+  | b :: r => if byte_eqb b x20 then Some (x20 :: b :: r)
+              else match dbl_space r with Some r' => Some (b :: r') | None => None end
+  end.
+Definition related (m : bytes) (i : N) : bytes :=
+  match i with
+  | 0 => x20 :: m | 1 => m ++ [x0a] | 2 => m ++ [x20] | 3 => x09 :: m
+  | 4 => rev (lstrip (rev (lstrip m)))
+  | 5 => [xef; xbb; xbf] ++ m | 6 => m ++ [x00]
+  | 7 => map up_b m | 8 => map lo_b m
+  | 9 => match dbl_space m with Some v => v | None => m ++ [x20; x20] end
+  | 10 => m ++ [x0d; x0a] | 11 => x0c :: m | 12 => x0b :: m | 13 => x0a :: m ++ [x09]
+  | _ => x00 :: m
+  end%N.
 
 Definition run_tamper (kb : bytes) (c : bool) (msg : bytes) (p : byte) (kind : string) (i : N) : string :=
   match key_of kb c with
@@ -165,6 +187,7 @@ Definition run_tamper (kb : bytes) (c : bool) (msg : bytes) (p : byte) (kind : s
         | Ok sg, Ok a =>
             match kind with
             | "m" => show_t (verify_with_digest fast_prims (magic_digest (flip_bit msg idx)) sg a)
+            | "w" => show_t (verify_with_digest fast_prims (magic_digest (related msg i)) sg a)
             | "s" => show_t (do sg' <- from_compact_impl (flip_bit (to_compact_bytes sg None) (Nat.modulo idx 520));
                                   verify_with_digest fast_prims dg sg' a)
             | "h" => show_t (do a' <- make_addr p (flip_bit (Keys.a_hash a) (Nat.modulo idx 160));
@@ -184,7 +207,10 @@ Definition run_tamper (kb : bytes) (c : bool) (msg : bytes) (p : byte) (kind : s
         | Panic, _ => "PANIC" | _, Panic => "PANIC"
         | _, _ => "ERR"
         end in
-      out3 impl (match kind with "p" => "OK:1;1;1" | "q" => "OK:1;1;1" | "o" => "OK:1;1;1" | _ => "OK:E;0;0" end) "-"
+      out3 impl (match kind with
+                 | "p" => "OK:1;1;1;1" | "q" => "OK:1;1;1;1" | "o" => "OK:1;1;1;1"
+                 | "w" => if bytes_eqb (related msg i) msg then "OK:1;1;1;1" else "OK:E;0;0;E"   (* the SAME message must verify *)
+                 | _ => "OK:E;0;0;E" end) "-"
   | _ => out3 "ERR" "ERR" "-"
   end.
 
